@@ -2,6 +2,7 @@ import FcpptProofs.C15.Bytes
 import FcpptProofs.C15.Extract
 import FcpptProofs.C15.EnumVec
 import FcpptProofs.C15.Old
+import FcpptProofs.C15.Widen
 /-!
 # C15 — textual and binary encodings round-trip losslessly: property theorems
 
@@ -282,5 +283,182 @@ example : vecOutput [1, -2, 3] [] = [40, 49, 44, 45, 50, 44, 51, 41] := by decid
 example : vecInput ⟨4, true⟩ 2 (IStream.ofString [40, 32, 49, 32, 44, 50, 41, 120]) = ({ buf := [120], eof := false, fail := false }, [1, 2]) := by decide
 /-- a missing `)` is a failure -/
 example : (vecInput ⟨4, true⟩ 2 (IStream.ofString [40, 49, 44, 50])).1.fail = true := by decide
+
+/-! ## the `impl::codecvt` loop over an arbitrary converter -/
+
+/-- For ANY converter that satisfies the contract (`Contract`: writes inside the window, reads inside the input, what it
+wrote is the conversion of what it consumed, output only from consumed input) and any compositional meaning `R` of
+"conversion", the loop — from every loop state that can arise, i.e. every buffer size, capacity and growth history —
+terminates within the fuel, never faults, and returns a failure or the conversion of the COMPLETE input ending in the
+initial state; never a proper prefix.  (`noconv`: the input itself, as the code does.) -/
+theorem codecvt_loop_complete_or_fail {σ In Out : Type} (cv : Converter σ In Out) (R : σ → List In → List Out → σ → Prop)
+    (hc : Contract cv R) (hR : Compositional R) (string : List In)
+    (fuel : Nat) (state : σ) (frm : Nat) (buf : Buf Out)
+    (hfrm : frm ≤ string.length) (hinv : R cv.init (string.take frm) buf.data state)
+    (hfuel : loopMeasure string.length cv.maxLength frm buf < fuel) :
+    ∃ res, codecvtLoop cv string fuel state frm buf = .ok res ∧
+      (res = none ∨ (res = some (string.map cv.cast) ∧ ∃ s inp w, (cv.step s inp w).res = .noconv) ∨
+        ∃ out s', res = some out ∧ R cv.init string out s' ∧ cv.isInit s' = true) :=
+  loop_outcome cv R hc hR string fuel state frm buf hfrm hinv hfuel
+
+/-- … in particular `fcppt::impl::codecvt` itself (initial buffer = length of the input, `2n + 3` iterations suffice). -/
+theorem codecvt_complete_or_fail {σ In Out : Type} (cv : Converter σ In Out) (R : σ → List In → List Out → σ → Prop)
+    (hc : Contract cv R) (hR : Compositional R) (hinit : cv.isInit cv.init = true) (string : List In) :
+    ∃ res, codecvt cv string = .ok res ∧
+      (res = none ∨ (res = some (string.map cv.cast) ∧ ∃ s inp w, (cv.step s inp w).res = .noconv) ∨
+        ∃ out s', res = some out ∧ R cv.init string out s' ∧ cv.isInit s' = true) :=
+  codecvt_outcome cv R hc hR hinit string
+
+/-- Never a proper prefix: if conversion is a function of the input, a result is THE conversion of the whole input. -/
+theorem codecvt_never_a_proper_prefix {σ In Out : Type} (cv : Converter σ In Out) (R : σ → List In → List Out → σ → Prop)
+    (hc : Contract cv R) (hR : Compositional R) (hinit : cv.isInit cv.init = true)
+    (hnn : ∀ s inp w, (cv.step s inp w).res ≠ .noconv)
+    (hfun : ∀ a x y s1 s2, R cv.init a x s1 → R cv.init a y s2 → x = y)
+    (string : List In) (full : List Out) (sf : σ) (hfull : R cv.init string full sf) (out : List Out)
+    (h : codecvt cv string = .ok (some out)) : out = full := by
+  obtain ⟨res, hres, ho⟩ := codecvt_outcome cv R hc hR hinit string
+  rw [h] at hres
+  cases hres
+  rcases ho with ho | ⟨_, s, inp, w, hn⟩ | ⟨o, s', ho, hr, _⟩
+  · cases ho
+  · exact absurd hn (hnn s inp w)
+  · cases ho; exact hfun _ _ _ _ _ hr hfull
+
+/-- If moreover the converter does not get stuck on good input (`Live`), good input is converted. -/
+theorem codecvt_succeeds_on_good_input {σ In Out : Type} (cv : Converter σ In Out) (R : σ → List In → List Out → σ → Prop)
+    (hc : Contract cv R) (Good : σ → List In → Prop) (hl : Live cv Good) (string : List In) (hg : Good cv.init string) :
+    ∃ out, codecvt cv string = .ok (some out) :=
+  codecvt_succeeds cv R hc Good hl string hg
+
+/-- The model of the C.utf8 facet (libstdc++ over glibc, validated against the real facet on every run) satisfies the
+contract and is live on valid input — the hypotheses above are not vacuous. -/
+theorem facet_model_meets_contract :
+    Contract utf8Out OutRel ∧ Compositional OutRel ∧ Live utf8Out OutGood ∧
+    Contract utf8In DecRel ∧ Compositional DecRel ∧ Live utf8In InGood :=
+  ⟨utf8Out_contract, outRel_compositional, utf8Out_live, utf8In_contract, decRel_compositional, utf8In_live⟩
+
+/-! ### the three repaired defects of the loop, refuted on witnesses (`Old.codecvt v`: the loop before the fix) -/
+
+/-- before 59b5504: `narrow(L"ä")` is the empty string, `narrow(L"a\U0010FFFF")` is the prefix `"a"` -/
+example : Old.codecvt 0 utf8Out [0xE4] = .ok (some []) := by decide
+example : Old.codecvt 0 utf8Out [0x61, 0x10FFFF] = .ok (some [0x61]) := by decide
+/-- before 5e38615: `narrow(L"ä\0ä")` loses its last character (`ok` with an exactly full window behind the NUL) -/
+example : Old.codecvt 1 utf8Out [0xE4, 0, 0xE4] = .ok (some [0xC3, 0xA4, 0]) := by decide
+/-- before ee22c42: `widen("a\xc3")` is `L"a"` (glibc keeps the incomplete byte in the state and reports `ok`) -/
+example : Old.codecvt 2 utf8In [0x61, 0xC3] = .ok (some [0x61]) := by decide
+/-- now -/
+example : narrowLocale [0xE4] = .ok (some [0xC3, 0xA4]) := by decide
+example : narrowLocale [0x61, 0x10FFFF] = .ok (some [0x61, 0xF4, 0x8F, 0xBF, 0xBF]) := by decide
+example : narrowLocale [0xE4, 0, 0xE4] = .ok (some [0xC3, 0xA4, 0, 0xC3, 0xA4]) := by decide
+example : widenLocale [0x61, 0xC3] = .ok none := by decide
+
+/-! ## UTF-8 -/
+
+/-- The encoder is UTF-8 by its bit layout; Unicode scalar values are valid and take at most four bytes. -/
+theorem encode_is_utf8 (c : Nat) : encodeWc c = Spec.utf8Encode c := encodeWc_eq_spec c
+
+theorem scalar_is_valid (c : Nat) (h : Spec.IsScalar c) : validWc c = true ∧ (Spec.utf8Encode c).length ≤ 4 :=
+  ⟨scalar_valid c h, scalar_len c h⟩
+
+/-- decode ∘ encode = id for every list (any length) of valid characters — all scalar values among them —, and the
+decoder is a function: the encoding loses nothing. -/
+theorem decode_encode (ws : List Nat) (hv : ∀ c ∈ ws, validWc c = true) :
+    DecRel [] (Spec.utf8EncodeAll ws) ws [] ∧ ∀ out p, DecRel [] (Spec.utf8EncodeAll ws) out p → out = ws ∧ p = [] := by
+  rw [← encodeAll_eq_spec ws hv]
+  exact ⟨decRel_encodeAll ws hv, fun out p h => decRel_functional h (decRel_encodeAll ws hv)⟩
+
+theorem decode_encode_scalars (ws : List Nat) (hs : ∀ c ∈ ws, Spec.IsScalar c) : DecRel [] (Spec.utf8EncodeAll ws) ws [] :=
+  (decode_encode ws (fun c hc => scalar_valid c (hs c hc))).1
+
+/-- the encoding is injective on strings (it is a prefix code) -/
+theorem encode_injective (w1 w2 : List Nat) (h1 : ∀ c ∈ w1, validWc c = true) (h2 : ∀ c ∈ w2, validWc c = true)
+    (h : Spec.utf8EncodeAll w1 = Spec.utf8EncodeAll w2) : w1 = w2 := by
+  have a := (decode_encode w1 h1).1
+  rw [h] at a
+  exact ((decode_encode w2 h2).2 w1 [] a).1
+
+/-- encode ∘ decode = id: whatever the decoder accepts completely (nothing pending) outside the excluded class is
+the encoding of its output, every output character is valid — overlong forms, surrogates, stray and missing
+continuation bytes are never accepted. -/
+theorem encode_decode (bs out : List Nat) (h : DecRel [] bs out []) (hn : nulWhilePending [] bs = false) :
+    bs = Spec.utf8EncodeAll out ∧ ∀ c ∈ out, validWc c = true := by
+  obtain ⟨h1, h2⟩ := decRel_sound h hn
+  simp only [List.nil_append, List.append_nil] at h1
+  exact ⟨by rw [h1, encodeAll_eq_spec out h2], h2⟩
+
+/-! ## `narrow` / `widen` in C.utf8 -/
+
+/-- `narrow_locale` (= `from_std_wstring_locale`): the complete UTF-8 encoding or a failure, never a part of it. -/
+theorem narrow_complete_or_fail (ws : List Nat) :
+    narrowLocale ws = .ok none ∨ (narrowLocale ws = .ok (some (Spec.utf8EncodeAll ws)) ∧ ∀ c ∈ ws, validWc c = true) := by
+  rcases narrowLocale_outcome ws with h | ⟨h, hv⟩
+  · exact Or.inl h
+  · exact Or.inr ⟨by rw [h, encodeAll_eq_spec ws hv], hv⟩
+
+/-- `widen_locale` (= `to_std_wstring_locale`): a failure, or the decoding of the complete input with nothing pending;
+and unless the input belongs to the excluded class of the known finding (a NUL byte arriving while an incomplete
+sequence is pending — `nulWhilePending`, e.g. `c3 00 a4`), the input is exactly the UTF-8 encoding of the result. -/
+theorem widen_complete_or_fail (bs : List Nat) :
+    widenLocale bs = .ok none ∨
+    ∃ out, widenLocale bs = .ok (some out) ∧ DecRel [] bs out [] ∧
+      (nulWhilePending [] bs = false → bs = Spec.utf8EncodeAll out ∧ ∀ c ∈ out, validWc c = true) := by
+  rcases widenLocale_outcome bs with h | ⟨out, h, hd⟩
+  · exact Or.inl h
+  · exact Or.inr ⟨out, h, hd, fun hn => encode_decode bs out hd hn⟩
+
+/-- NUL-free input of any validity is never in the excluded class: there the strong statement holds unconditionally. -/
+theorem widen_complete_or_fail_nul_free (bs : List Nat) (h0 : ∀ b ∈ bs, b ≠ 0) :
+    widenLocale bs = .ok none ∨ ∃ out, widenLocale bs = .ok (some out) ∧ bs = Spec.utf8EncodeAll out ∧ ∀ c ∈ out, validWc c = true := by
+  rcases widen_complete_or_fail bs with h | ⟨out, h, _, hs⟩
+  · exact Or.inl h
+  · exact Or.inr ⟨out, h, hs (nulWhilePending_of_no_nul bs h0 [])⟩
+
+/-- The known finding, reproduced by the model: `c3 00 a4` is in the excluded class and is "converted". -/
+example : nulWhilePending [] [0xC3, 0x00, 0xA4] = true ∧ widenLocale [0xC3, 0x00, 0xA4] = .ok (some [0, 0xE4]) := by decide
+/-- the class is about pending bytes only: a NUL between complete characters is fine -/
+example : nulWhilePending [] [0xC3, 0xA4, 0x00, 0xC3, 0xA4] = false ∧
+    widenLocale [0xC3, 0xA4, 0x00, 0xC3, 0xA4] = .ok (some [0xE4, 0, 0xE4]) := by decide
+
+/-- `widen(narrow(s)) = s` for every string (every length, embedded NULs allowed) of valid characters, through every
+buffer growth path of both loops. -/
+theorem narrow_widen_roundtrip (ws : List Nat) (hv : ∀ c ∈ ws, validWc c = true) :
+    narrowLocale ws = .ok (some (Spec.utf8EncodeAll ws)) ∧ widenLocale (Spec.utf8EncodeAll ws) = .ok (some ws) := by
+  rw [← encodeAll_eq_spec ws hv]
+  exact ⟨narrowLocale_valid ws hv, widenLocale_valid ws hv⟩
+
+/-- … in particular for every string of Unicode scalar values U+0000 … U+10FFFF. -/
+theorem narrow_widen_roundtrip_scalars (ws : List Nat) (hs : ∀ c ∈ ws, Spec.IsScalar c) :
+    narrowLocale ws = .ok (some (Spec.utf8EncodeAll ws)) ∧ widenLocale (Spec.utf8EncodeAll ws) = .ok (some ws) :=
+  narrow_widen_roundtrip ws (fun c hc => scalar_valid c (hs c hc))
+
+/-- `narrow(widen(b)) = b` whenever `widen` succeeds outside the excluded class. -/
+theorem widen_narrow_roundtrip (bs out : List Nat) (h : widenLocale bs = .ok (some out)) (hn : nulWhilePending [] bs = false) :
+    narrowLocale out = .ok (some bs) := by
+  rcases widen_complete_or_fail bs with h' | ⟨o, h', _, hs⟩
+  · rw [h] at h'; cases h'
+  · rw [h] at h'; cases h'
+    obtain ⟨hb, hv⟩ := hs hn
+    rw [hb]; exact (narrow_widen_roundtrip out hv).1
+
+/-- Invalid input is reported: a string with a character the encoder refuses has no narrow form … -/
+theorem narrow_fails_on_invalid (ws : List Nat) (c : Nat) (hc : c ∈ ws) (hbad : validWc c = false) : narrowLocale ws = .ok none := by
+  rcases narrow_complete_or_fail ws with h | ⟨_, hv⟩
+  · exact h
+  · have := hv c hc; rw [hbad] at this; cases this
+
+/-- … and bytes that are not the encoding of anything (outside the excluded class) make `widen` throw. -/
+theorem widen_fails_on_invalid (bs : List Nat) (hn : nulWhilePending [] bs = false)
+    (hbad : ¬ ∃ ws, (∀ c ∈ ws, validWc c = true) ∧ bs = Spec.utf8EncodeAll ws) : widenLocale bs = .ok none := by
+  rcases widen_complete_or_fail bs with h | ⟨out, _, _, hs⟩
+  · exact h
+  · obtain ⟨hb, hv⟩ := hs hn
+    exact absurd ⟨out, hv, hb⟩ hbad
+
+/-! ### non-vacuity -/
+example : Spec.IsScalar 0x10FFFF ∧ Spec.IsScalar 0x1F600 ∧ ¬ Spec.IsScalar 0xD800 := by
+  refine ⟨by unfold Spec.IsScalar; omega, by unfold Spec.IsScalar; omega, by unfold Spec.IsScalar; omega⟩
+example : Spec.utf8EncodeAll [0x61, 0xE4, 0x20AC, 0x1F600] = [0x61, 0xC3, 0xA4, 0xE2, 0x82, 0xAC, 0xF0, 0x9F, 0x98, 0x80] := by decide
+example : widenLocale [0xC0, 0x80] = .ok none ∧ widenLocale [0xED, 0xA0, 0x80] = .ok none ∧ widenLocale [0xE2, 0x82] = .ok none := by decide
+example : narrowLocale [0x61, 0xD800] = .ok none := by decide
 
 end Fcppt.C15
